@@ -65,4 +65,5 @@ def run(ctx, rep):
     # G16 / G17: small functions decided by evaluation on samples: members filed per kind in source order; namespace chain outermost first
     rep.run(RT.rule_members_in_source_order, ctx, rep, "G16")
     rep.run(RT.rule_namespace_chain_by_evaluation, ctx, rep, "G17")
+    rep.run(RT.rule_ctor_stores_what_it_was_given, ctx, rep, "G18")
     rep.run(RF.rule_locals_defined, ctx, rep, "U1", packages=("gtwrap/interface_parser",), min_functions=3)
